@@ -738,7 +738,7 @@ impl S3Client {
         Ok(S3Client {
             s3_client: create_rusoto_client(region, profile),
             bucket: bucket.to_owned(),
-            prefix: prefix.unwrap_or_default().to_owned(),
+            prefix: util::trim_trailing_slashes(prefix.unwrap_or_default()).to_owned(),
             runtime: runtime::Builder::new_multi_thread().enable_all().build()?,
         })
     }
